@@ -265,4 +265,35 @@ theorem idle_run (s : WD) (n : Nat) (h : s.WF) :
           have := closed_run (s.step .tick) (List.replicate k .tick) hst
           simpa [List.replicate_succ, WD.run] using this
 
+/-- the loop, pass by pass, queues what `queued` says -/
+theorem queued_eq_queuedBy (hb : Bytes) (cap : Nat) (items : List Item) :
+    queued hb cap items = queuedBy hb cap items := by
+  induction items with
+  | nil => rfl
+  | cons it rest ih =>
+    simp only [queued, queuedBy, recvStep]
+    split
+    · split
+      · exact ih
+      · cases he : it.err with
+        | none => simp [ih]
+        | some e => by_cases hd : it.data = [] <;> simp [hd]
+    · rfl
+
+/-- every message equal to the payload drops out of the reader's view, with or without an error
+attached to the read that carried it, wherever it stands -/
+theorem queued_filter_hb (hb : Bytes) (cap : Nat) (hfit : hb.length ≤ cap) (items : List Item) :
+    queued hb cap items = queued hb cap (items.filter (fun it => it.data ≠ hb)) := by
+  induction items with
+  | nil => rfl
+  | cons it rest ih =>
+    by_cases h : it.data = hb
+    · have hl : it.data.length ≤ cap := by rw [h]; exact hfit
+      simp [queued, h, hfit, ih]
+    · have hf : (it :: rest).filter (fun it => it.data ≠ hb) = it :: rest.filter (fun it => it.data ≠ hb) := by
+        simp [List.filter_cons, h]
+      rw [hf]
+      simp only [queued]
+      rw [ih]
+
 end CJ.Heartbeat
